@@ -54,6 +54,18 @@ CHECKS = {
  "C20": ("TLC model checking (ObjGen: documented fast path = slow path on sorted vectors) + TLC trace validation (JObj judge: value = ObjectivesDoc.tla, exact rationals for the weighted objective) of value_to_minimize on every TLC-enumerated sum sequence",
          "TLC enumerates every sequence of <=4/5 sums; the six built-in objectives are evaluated on each as list / tuple / int array / float array, every k in 1..n+2, weight vectors, slow and (on sorted vectors) fast path; TLC compares with the documented definition.",
          "Trusted: TLC, ObjectivesDoc.tla, float->fraction normalisation of the weighted value.", "7 C20"),
+ "C11": ("TLC model checking of the abstract anytime search (Anytime.tla: ResultValid, Monotone, OptimalWhenExhausted) + TLC trace specification JAnytime stepping the complete CUT HISTORY (one run per clock reading under a counting clock) of complete greedy, CBLDM and the CKK generator",
+         "With a deterministic counting clock installed as the modules' time attribute, every possible cut point c = 1..R of every run on a TLC-enumerated universe (3 objectives x switch combinations; CBLDM bounds) is executed; TLC steps each history: None or a true partition, never worse with a larger limit, first complete-greedy solution = LPT, unlimited result optimal; generator yields valid, strictly improving, snapshot-stable.",
+         "Trusted: TLC, Oracles.Opt/OptBalanced, the counting clock (logical cut points only, no wall-clock behaviour).", "7 C11"),
+ "C15": ("TLC-generated call histories (Session.tla: every ordered pair of a 45-call menu exhaustively, simulated long histories) replayed in freshly forked interpreters + TLC trace specification JSession (return = fresh-interpreter return, arguments unchanged)",
+         "A menu mixing all algorithms, presentations, output types, options and failing calls; TLC enumerates all ordered pairs and simulates long histories; each runs in one interpreter; TLC compares every return with the same call's return in a fresh interpreter under two hash seeds and the argument digests before/after.",
+         "Trusted: TLC, canonical digest of results, process isolation by fork from a parent that only imported prtpy.", "7 C15"),
+ "C17": ("TLC trace validation (JIlp judge: exhaustive enumeration of all assignments of item copies to weighted bins in TLA+) of ILP calls with copies / weights / additional constraints / injected solver statuses",
+         "Seeded requests (values <=200, <=5 items, <=4 bins, copies scalar or per item, weights, three constraint forms feasible and infeasible, five objectives) plus every non-OPTIMAL status injected through a mip.Model.optimize wrapper; TLC judges copies, ascending order / bin-weight correspondence, constraints, optimality (S2 decides, S1 reported), refusal.",
+         "Trusted: TLC, the MIP solver's claimed status (its answer is judged, not its search), re-solve rule.", "7 C17"),
+ "C18": ("TLC trace validation (JMeta judge) of metamorphic groups: all/sampled permutations, scaling by {2,3,7,10,1024}, zero padding, and cross-algorithm agreement on 11-16 item instances",
+         "Base inputs from TLC-enumerated universes and seeded families; every algorithm re-run on transformed inputs; TLC judges: exact -> same / multiplied optimum, sorting heuristics -> same / multiplied bag of sums, agreement among exact algorithms and no heuristic better.",
+         "Trusted: TLC, ObjectivesDoc.tla.", "7 C18"),
 }
 PENDING = {}
 
